@@ -34,6 +34,36 @@ def check_segment(rep, text):
                                         'default': tr(a)[:8], 'segment': tr(b)[:8]})
 
 
+def backref_desc(r):
+    """a TRS_desc / S_desc_TR description some of whose blocks refer back to their own section and Twp/Rge ('... lying within
+    Section 4 of T154N-R97W ...'): the library documents such a Twp/Rge as a reference inside the text (twprge_ignored), not a
+    new one.  Returns (text, expected tracts)."""
+    lay = r.choice(['TRS_desc', 'S_desc_TR'])
+    g2 = []
+    for (t, ns, rr, ew, sgs) in gen.rand_abs_desc(r, 3, 3, 2):
+        nsgs = []
+        for its, block in sgs:
+            if r.chance(1, 2):
+                n = gen.expand_items(its)[0]
+                trs = r.choice(gen.twprge_spellings(t, ns, rr, ew))
+                block = (r.choice(['That part of the NE/4', 'A tract in the W/2', 'Lots 1 - 3']) + r.choice([' lying within ', ' in ', ' of ', ', '])
+                         + f'Section {n}' + r.choice([' of ', ' in ', ', ']) + trs + r.choice(['', ' north of the river', ' containing 40 acres']))
+            nsgs.append((its, block))
+        g2.append((t, ns, rr, ew, nsgs))
+    return gen.render_desc(g2, lay, r), gen.expected_tracts(g2)
+
+
+def check_segment_backref(rep, text, expected):
+    a = pytrs.PLSSDesc(text)
+    if a.e_flags or tr(a) != expected:
+        return False          # not read as the single-layout description it was meant to be: outside this clause
+    b = pytrs.PLSSDesc(text, config='segment')
+    if tr(a) != tr(b):
+        rep.violation('failing-input', {'text': text, 'mode': 'segment', 'why': 'segment changes the tracts of a single-layout description '
+                                        '(blocks that refer back to their own section and Twp/Rge)', 'default': tr(a)[:8], 'segment': tr(b)[:8]})
+    return True
+
+
 def check_colons_present(rep, text):
     a = pytrs.PLSSDesc(text)
     for mode in ('sec_colon_required', 'sec_colon_cautious'):
@@ -122,6 +152,13 @@ def run(ctx):
         if n > 1:
             rep.nontrivial((text, 'segment'))
         items.append(descs.corr_item(text, cfg='segment'))
+        for _ in range(2):
+            tb, eb = backref_desc(r)
+            if safely(rep, 'segment (back references)', check_segment_backref, tb, eb):
+                rep.nontrivial((tb, 'segment'))
+                rep.dist('c20_backref', 'counted')
+                items.append(descs.corr_item(tb, cfg='segment'))
+            rep.count()
         t2, lay2, g2 = descs.structured(r, max_tr=2, max_sg=2, layout=r.choice(['TRS_desc', 'S_desc_TR']), colons=True)
         safely(rep, 'colons_present', check_colons_present, t2)
         t3 = t2.replace(':', '')
